@@ -6,6 +6,9 @@ import (
 	"os"
 	"runtime"
 	"strings"
+	"sync/atomic"
+	"syscall"
+	"time"
 )
 
 // Ctx is the per-worker monitoring context. It is not safe for concurrent use;
@@ -22,6 +25,7 @@ type Ctx struct {
 	lite    [3]string // kind, key, value of a lightweight case (materialised on demand)
 	hasLite bool
 	journal *os.File
+	seq     atomic.Uint64 // +1 on entering and on leaving a case
 	perSig  map[string]int
 	// OnPanic lets a monitor translate library-specific panic values (step budget).
 	OnPanic func(v interface{}) (sig string, ok bool)
@@ -137,6 +141,8 @@ func (x *Ctx) Do(c *Case, f func()) {
 	x.cur = c
 	x.hasLite = false
 	x.Res.Evaluations++
+	x.seq.Add(1) // odd: inside a case
+	defer x.seq.Add(1)
 	if x.journal != nil {
 		b, _ := json.Marshal(c)
 		b = append(b, '\n')
@@ -152,6 +158,7 @@ func (x *Ctx) DoLite(kind, key, val string, f func()) {
 	x.lite = [3]string{kind, key, val}
 	x.hasLite = true
 	x.Res.Evaluations++
+	x.seq.Add(1)
 	if x.journal != nil {
 		b, _ := json.Marshal(x.Current())
 		b = append(b, '\n')
@@ -159,6 +166,38 @@ func (x *Ctx) DoLite(kind, key, val string, f func()) {
 	}
 	x.Guard(f)
 	x.hasLite = false
+	x.seq.Add(1)
+}
+
+// StartStallWatchdog watches the case counter: when one case has been running for about limit (the counter is odd and has
+// not moved over that many seconds of samples), the case is written to path and the process sends itself SIGQUIT, so the
+// log gets the goroutine dump and the driver can confirm the hang on that case alone instead of waiting for the shard's
+// deadline. The verdict is not taken here: the driver replays the case in fresh processes.
+func (x *Ctx) StartStallWatchdog(limit time.Duration, path string) {
+	go func() {
+		const step = 2 * time.Second
+		last, since := x.seq.Load(), time.Duration(0)
+		for {
+			time.Sleep(step)
+			cur := x.seq.Load()
+			if cur != last || cur%2 == 0 {
+				last, since = cur, 0
+				continue
+			}
+			since += step
+			if since < limit {
+				continue
+			}
+			// the main goroutine last wrote the case before the Add we observed and has not left it since
+			if b, err := json.Marshal(x.Current()); err == nil {
+				os.WriteFile(path, b, 0o644) //nolint
+			}
+			fmt.Fprintf(os.Stderr, "VERIF-STALL-WATCHDOG: one case running for %v\n", since)
+			syscall.Kill(os.Getpid(), syscall.SIGQUIT) //nolint
+			time.Sleep(20 * time.Second)
+			os.Exit(98)
+		}
+	}()
 }
 
 // Guard runs f and converts a panic into a violation (library frame on top) or a
